@@ -9,6 +9,16 @@ CHECKS = [
     ),
 ]
 
+import json as _json
+from pathlib import Path as _Path
+_have = {c['property_id'] for c in CHECKS}
+for _f in sorted((_Path(__file__).resolve().parent.parent / 'manifest.d').glob('C*.json')):
+    _d = _json.loads(_f.read_text())
+    if _d['property_id'] not in _have:
+        CHECKS.append(_d)
+        _have.add(_d['property_id'])
+CHECKS.sort(key=lambda c: c['property_id'])
+
 _PENDING = 'machinery not built yet in this commit (build in progress, see DESIGN.md section 7)'
 NOT_APPLICABLE = [dict(property_id='C%02d' % i, reason=_PENDING) for i in range(1, 21)
                   if 'C%02d' % i not in {c['property_id'] for c in CHECKS}]
